@@ -1532,16 +1532,10 @@ func TestVerifC12Lab(t *testing.T) {
 				if tag != "" {
 					fam += 100
 				}
-				// KNOWN finding overbudget-tree-files-zone-failure, tagged by what is observed: a tree that ended over budget
-				// inside checkHosts' nameserver re-resolution files "every server of the zone failed" in the shared failure
-				// cache (recordResolutionZoneFailure does not consult the ledger), and the next client — own budget, nothing
-				// sent — is answered SERVFAIL / Cached Error although the zone resolves when nothing is budgeted
-				fkey := ""
-				if tag == "" && topo.fam == vC12FamRehome && x.first != 0 && resolvable && next.ede == 14 && next.packets == 0 {
-					fkey = "overbudget-tree-files-zone-failure"
-				}
+				// (former finding overbudget-tree-files-zone-failure, fixed by c55a314: a tree that ended over budget inside
+				// checkHosts' nameserver re-resolution filed "every server of the zone failed" in the shared failure cache and
+				// the next client was answered SERVFAIL / Cached Error; the cases are strict — no fkey)
 				emit(map[string]any{
-					"fkey": fkey,
 					"k": "lab-enforce-" + tag + topo.name,
 					"coq": fmt.Sprintf("CaseLab 2 %d %d %d %d %d %s %s %s %d %d %d %d %d %d %d %d %d %d", maxOut, maxInt, fam, topo.p1, topo.p2, vC12Flag(qmin), vC12Flag(edns), vC12Flag(resolvable && tag == ""),
 						x.packets, x.ledOut, x.ledInt, x.runs, x.first, vC12Rcode(x.rcode), x.ede, next.packets, vC12Rcode(next.rcode), next.ede),
